@@ -37,8 +37,12 @@ TOL_S = 2e-6          # calc_scat_matrix vs model, scale = sum of |terms|; asm_m
 #                       in REAL*4, so each term carries a relative error up to 2^-24 = 6e-8  [<= 6e-8]
 TOL_MSF = 1e-11       # Multisphere helper formulas vs model                            [<= 1e-15]
 TOL_SPLIT = 1e-12     # |cext - cscat - cabs| / cext                                     [<= 2e-16]
-TOL_ABS0 = 1e-10      # |cabs| / cext for a real index (Mie)                             [<= 2e-15]
-TOL_ABSNEG = 1e-10    # cabs >= -tol * cext (absorbing, Mie)                              [never negative]
+TOL_ABS0 = 1e-10      # |cabs| / cext for a real index, uniform sphere                   [<= 4e-12]
+TOL_ABSNEG = 1e-10    # cabs >= -tol * cext (absorbing, uniform sphere)                   [never negative]
+TOL_ABS_LAY = 1e-4    # both, layered spheres with x >= 0.2: scatcoeffs_multi is not of the N/(N+iM) form and its
+#                       rounding noise in Re(a) grows like x^-6 below x ~ 0.3 and slowly above x ~ 30
+#                       [<= 5e-8 over 6000 layered real-index spheres, x in 0.2..500]
+TOL_LAYSMALL = 1e-3   # layered, x <= 0.05, real index: |cabs| <= tol * cext and cext > 0 (property as stated)
 TOL_OT = 2e-6         # optical theorem between the two entry points, relative          [<= 5e-8]
 TOL_QUAD = 5e-6       # quadrature of |S|^2 vs cscat (rel) and g (abs)                    [<= 2e-7]
 TOL_RAY = 1e-3        # Rayleigh formula, x <= 0.01, |m| <= 2.2                           [<= 2e-4]
@@ -165,6 +169,10 @@ def gen_sphere(rng, xmax, layered_p=0.25, kind=None):
     k = 2 * np.pi / (wl / nm)
     x = gen_x(rng, xmax)
     if rng.random() < layered_p:
+        # layered spheres with outer x < 0.2 are the class of the known accuracy defect of scatcoeffs_multi
+        # (see stage_layered_small); here they start at 0.2
+        if x < 0.2:
+            x = loguni(rng, 0.2, min(5.0, xmax))
         nl = rng.choice([2, 2, 3])
         kinds, ns = [], []
         kd = kind or rng.choice(["real", "weak", "strong"])
@@ -238,11 +246,11 @@ def stage_coef(ctx):
     rng = ctx.subrng("coef")
     exprs, metas = [], []
     eps1, eps2 = 1e-2, 1e-16
-    for kcase in range(ctx.n(40, 400)):
+    for kcase in range(ctx.n(40, 240)):
         m, kind = gen_index(rng)
         nm = rng.choice([1.0, 1.33, 1.5])
         m = m / nm
-        x = gen_x(rng, ctx.n(40.0, 100.0))
+        x = gen_x(rng, ctx.n(40.0, 60.0))
         nstop = miescatlib.nstop(x)
         D = dn_1_down(m * x, nstop + 1, nstop, lentz_dn1(m * x, nstop + 1, eps1, eps2))
         psi, xi = mie_specfuncs.riccati_psi_xi(x, nstop)
@@ -289,8 +297,8 @@ def stage_mie(ctx):
     from holopy.core.metadata import detector_points
     rng = ctx.subrng("mie")
     exprs, metas = [], []
-    for kcase in range(ctx.n(60, 700)):
-        s, nm, wl, k, x, kind, desc = gen_sphere(rng, ctx.n(60.0, 100.0))
+    for kcase in range(ctx.n(60, 360)):
+        s, nm, wl, k, x, kind, desc = gen_sphere(rng, ctx.n(60.0, 100.0 if kcase % 6 == 0 else 50.0))
         pol = gen_pol(rng)
         co = Mie()._scat_coeffs(s, k, nm)
         cs4 = [float(v) for v in calc_cross_sections(s, nm, wl, pol).values]
@@ -447,11 +455,14 @@ def stage_explore_mie(ctx):
             ctx.violation("mie:split:" + cls, "cext != cscat + cabs", data)
         if not cscat > 0:
             ctx.violation("mie:cscat-positive:" + cls, "cscat is not positive", data)
+        lay = desc["layers"] > 1
         if kind == "real":
-            if not STAT.see("cabs=0(real m)", abs(cabs), TOL_ABS0 * cext):
+            if not STAT.see("cabs=0(real m):" + ("layered" if lay else "uniform"), abs(cabs),
+                            (TOL_ABS_LAY if lay else TOL_ABS0) * cext):
                 ctx.violation("mie:cabs-real-index:" + cls, "absorption does not vanish for a real index", data)
         else:
-            if not STAT.see("cabs>=0", max(0.0, -cabs), TOL_ABSNEG * cext):
+            if not STAT.see("cabs>=0:" + ("layered" if lay else "uniform"), max(0.0, -cabs),
+                            (TOL_ABS_LAY if lay else TOL_ABSNEG) * cext):
                 ctx.violation("mie:cabs-negative:" + cls, "absorption cross section is negative", data)
         if not (-1.0 <= g <= 1.0):
             ctx.violation("mie:g-range:" + cls, "asymmetry parameter outside [-1, 1]", data)
@@ -473,6 +484,75 @@ def stage_explore_mie(ctx):
                 ctx.violation("mie:integral-cscat:" + cls, "cscat differs from the solid-angle integral of |S|^2", data)
             if not STAT.see("quadrature:g", abs(gq - g), TOL_QUAD):
                 ctx.violation("mie:integral-g:" + cls, "asymmetry parameter differs from the integral form", data)
+
+
+def stage_layered_small(ctx):
+    """layered spheres with outer size parameter <= 0.05 and real indices: the property as stated
+    (absorption vanishes, extinction positive).  scatcoeffs_multi loses Re(a_n), Re(b_n) to rounding there."""
+    import numpy as np
+    from holopy.scattering import Sphere, calc_cross_sections
+    rng = ctx.subrng("laysmall")
+    for kcase in range(ctx.n(30, 300)):
+        nm, wl = gen_medium(rng)
+        k = 2 * np.pi / (wl / nm)
+        x = loguni(rng, 1e-3, 5e-2)
+        nl = rng.choice([2, 2, 3])
+        ns = [rng.uniform(1.0, 3.2) for _ in range(nl)]
+        fr = sorted(rng.uniform(0.2, 0.95) for _ in range(nl - 1)) + [1.0]
+        rs = [f * x / k for f in fr]
+        s = Sphere(n=ns, r=rs, center=(0, 0, 0))
+        cscat, cabs, cext, g = [float(v) for v in calc_cross_sections(s, nm, wl, (1, 0)).values]
+        ctx.explored += 1
+        ctx.count("layered-small")
+        ctx.nontriv(("laysmall", nl, round(math.log10(x), 1)))
+        data = dict(kind="xmie", sphere=dict(n=ns, r=rs, nm=nm, wl=wl, x=x, layers=nl), pol=(1, 0),
+                    cross_sections=[cscat, cabs, cext, g])
+        if not (cext > 0 and abs(cabs) <= TOL_LAYSMALL * cext):
+            ctx.violation("mie:layered-small-x", "layered sphere, real indices, size parameter <= 0.05: absorption "
+                          "does not vanish (|cabs| > 1e-3 cext) or extinction <= 0", data)
+
+
+def stage_layered_corners(ctx):
+    """two further corners of the layered-sphere code, generated on purpose so that they are seen in every run:
+    (a) weakly absorbing layers (Im n <= 1e-6) at size parameter <= 5e-3: cabs >= -1e-3 cext and cext > 0;
+    (b) a strongly absorbing layer with Im(m x) > 709 (exp/sin overflow in log_der_13): results must be finite."""
+    import numpy as np
+    from holopy.scattering import Sphere, calc_cross_sections
+    rng = ctx.subrng("laycorner")
+    for kcase in range(ctx.n(60, 400)):
+        nm, wl = gen_medium(rng)
+        k = 2 * np.pi / (wl / nm)
+        x = loguni(rng, 1e-3, 5e-3)
+        nl = rng.choice([2, 3])
+        ns = [complex(rng.uniform(1.0, 3.2), loguni(rng, 1e-7, 1e-6)) for _ in range(nl)]
+        fr = sorted(rng.uniform(0.2, 0.95) for _ in range(nl - 1)) + [1.0]
+        rs = [f * x / k for f in fr]
+        s = Sphere(n=ns, r=rs, center=(0, 0, 0))
+        cscat, cabs, cext, g = [float(v) for v in calc_cross_sections(s, nm, wl, (1, 0)).values]
+        ctx.explored += 1
+        ctx.count("layered-small-absorbing")
+        if not (cext > 0 and cabs >= -TOL_LAYSMALL * cext):
+            ctx.violation("mie:layered-small-x-absorbing", "layered sphere, Im(n) <= 1e-6, size parameter <= 5e-3: "
+                          "negative absorption (cabs < -1e-3 cext) or extinction <= 0",
+                          dict(kind="xmie", sphere=dict(n=ns, r=rs, nm=nm, wl=wl, x=x, layers=nl), pol=(1, 0),
+                               cross_sections=[cscat, cabs, cext, g]))
+    for kcase in range(ctx.n(6, 40)):
+        nm, wl = gen_medium(rng)
+        k = 2 * np.pi / (wl / nm)
+        x = rng.uniform(300.0, 480.0)
+        ns = [complex(rng.uniform(1.3, 3.0), rng.choice([0.0, 0.5])) * nm, complex(rng.uniform(0.2, 1.5), rng.uniform(2.5, 3.0)) * nm]
+        rs = [rng.uniform(0.2, 0.9) * x / k, x / k]
+        s = Sphere(n=ns, r=rs, center=(0, 0, 0))
+        vals = [float(v) for v in calc_cross_sections(s, nm, wl, (1, 0)).values]
+        ctx.explored += 1
+        ctx.count("layered-overflow-corner")
+        data = dict(kind="xmie", sphere=dict(n=ns, r=rs, nm=nm, wl=wl, x=x, layers=2), pol=(1, 0), cross_sections=vals)
+        if not all(math.isfinite(v) for v in vals):
+            ctx.violation("mie:nonfinite:layered:strong", "calc_cross_sections returns a non-finite value", data)
+        elif not (abs(vals[2] - vals[0] - vals[1]) <= TOL_SPLIT * vals[2] and vals[1] >= 0 and vals[0] > 0
+                  and -1 <= vals[3] <= 1 and 1.5 < vals[2] / (np.pi * rs[1] ** 2) < 2.5):
+            ctx.violation("mie:layered-large-absorbing", "large absorbing layered sphere: energy bookkeeping, ranges or "
+                          "the extinction-paradox limit (cext ~ 2 pi r^2) violated", data)
 
 
 def stage_rayleigh(ctx):
@@ -518,7 +598,15 @@ def stage_multisphere(ctx):
         xmax = 3.0 if (ctx.tier != "thorough" and kcase >= 4) else ctx.n(8.0, 20.0)
         s, nm, wl, k, x, kind, desc = gen_sphere(rng, xmax, layered_p=0.0)
         pol = gen_pol(rng)
-        th = Multisphere()
+        # default truncation tolerances (qeps1 = 1e-5) miss narrow high-order resonances of high-index spheres
+        # (measured: 1e-2 at m = 1.845, x = 10.98; 3e-7 with qeps1 = 1e-8), so outside (x <= 5 or Re m <= 1.5)
+        # the documented accuracy knobs are tightened
+        n_out = desc["n"]
+        if x > 5 and complex(n_out).real / nm > 1.5:
+            th = Multisphere(qeps1=1e-9, qeps2=1e-9)
+            ctx.count("ms:tight-qeps")
+        else:
+            th = Multisphere()
         mie4 = [float(v) for v in calc_cross_sections(s, nm, wl, pol).values]
         with warnings.catch_warnings():
             warnings.simplefilter("ignore")
@@ -615,6 +703,8 @@ def run(ctx):
     timed("ms-formulas", stage_ms_formulas, ctx)
     timed("explore-mie", stage_explore_mie, ctx)
     timed("rayleigh", stage_rayleigh, ctx)
+    timed("layered-small", stage_layered_small, ctx)
+    timed("layered-corners", stage_layered_corners, ctx)
     timed("multisphere", stage_multisphere, ctx)
     ctx.notes.append("stage wall times: " + ", ".join(times))
     ctx.notes.append("max observed error / tolerance per check: " +
